@@ -55,6 +55,10 @@ def main(tier):
             if b2:
                 bb = b2(); bb.big_endian = True
                 jobs.append(('forced-BE clang-O2 ' + label, bb, {'cc': 'clang', 'cflags': ('-O2', '-pthread'), 'defines': BE}))
+    # WebAssembly accesses may be unaligned: the big-endian access paths must not depend on the alignment of the address either (typed
+    # accesses through a cast pointer are undefined for odd addresses and trap on strict-alignment big-endian machines)
+    ba = c05.flavour_batch(); ba.big_endian = True
+    jobs.append(('forced-BE alignment-sanitizer plain loads/stores', ba, {'cc': 'clang', 'cflags': ('-O0', '-pthread', '-fsanitize=alignment', '-fno-sanitize-recover=all'), 'defines': BE}))
     # the unforced (little-endian) configuration on the same cases, reference switch off
     jobs.append(('LE plain loads/stores', c05.flavour_batch(), {'cc': 'gcc', 'cflags': ('-O1',)}))
     jobs.append(('LE atomics', c16.e1_batches(True), {'cc': 'gcc', 'cflags': ('-O1', '-pthread'), 'defines': ('-DWASM_THREADS_PTHREADS',)}))
@@ -123,13 +127,47 @@ def main(tier):
     except mclib.MachineryError as e:
         print('MACHINERY-ERROR C19: %s' % e)
         return 2
+    # the WASI host writes its results into guest memory too: the same scenario with wasi.c built for the little-endian and for the forced
+    # big-endian configuration; every field read back through the typed loads of the same build must have the same value (wasix/beprobe.c)
+    import wasix
+    try:
+        hle = wasix.Harness(['beprobe.c'], 'beprobe-le')
+        hbe = wasix.Harness(['beprobe.c'], 'beprobe-be', extra=['-DWASM_ENDIAN=WASM_BIG_ENDIAN'])
+    except RuntimeError as e:
+        print('MACHINERY-ERROR C19: %s' % e)
+        return 2
+    nfields = 0
+    for ns in (0, 1):
+        rl, rb = hle.run_lines('x', [str(ns)])[0], hbe.run_lines('x', [str(ns)])[0]
+        vl = [x for x in rl['info'] if x.startswith('V ')]; vb = [x for x in rb['info'] if x.startswith('V ')]
+        nsname = ('wasi_snapshot_preview1', 'wasi_unstable')[ns]
+        if not rl['done'] or len(vl) < 60:
+            print('MACHINERY-ERROR C19: the little-endian build of the WASI probe did not finish: %r %r' % (rl['san'][:5], vl[-3:])); return 2
+        if not rb['done']:
+            chk.violation('wasi-host|forced-be|crash', {'kind': 'config', 'namespace': nsname, 'report': rb['san'][:20], 'how_to_replay': 'python3 checks/c19.py quick (wasix/beprobe.c)'},
+                          'WASI host built for the forced big-endian configuration did not finish the probe scenario: %s' % ' / '.join(rb['san'][:3]))
+            continue
+        bad = [x for x in vl if 'bytes-that-differ' in x and not x.endswith(' 0')] + [x for x in vb if 'bytes-that-differ' in x and not x.endswith(' 0')]
+        for x in bad:
+            chk.violation('wasi-host|fd_readdir|truncated-record-not-a-prefix', {'kind': 'config', 'namespace': nsname, 'line': x, 'how_to_replay': 'python3 checks/c19.py quick (wasix/beprobe.c)'},
+                          '%s.fd_readdir with a buffer that ends inside the second record wrote bytes that differ from the complete listing (%s)' % (nsname, x))
+        for a_, b_ in zip(vl, vb):
+            nfields += 1
+            if a_ != b_:
+                fld = a_.split()[1]
+                chk.violation('wasi-host|forced-be|%s' % fld.split('.')[0], {'kind': 'config', 'namespace': nsname, 'little_endian_build': a_, 'forced_big_endian_build': b_, 'how_to_replay': 'python3 checks/c19.py quick (wasix/beprobe.c)'},
+                              '%s: field %s read back through the typed loads is %s in the little-endian build and %s in the forced big-endian build of wasi.c' % (nsname, fld, a_.split(' ', 2)[2], b_.split(' ', 2)[2]))
+        if len(vl) != len(vb):
+            chk.violation('wasi-host|forced-be|scenario-diverges', {'kind': 'config', 'namespace': nsname, 'fields': [len(vl), len(vb)]}, 'the probe scenario printed %d fields in the little-endian and %d in the forced big-endian build' % (len(vl), len(vb)))
+    chk.add(evaluations=nfields)
+    parts['WASI host results read back field by field, LE build vs forced-BE build'] = {'fields_compared': nfields}
     chk.cov['parts'] = parts
     chk.cov['rule'] = ('forced configuration -DWASM_ENDIAN=WASM_BIG_ENDIAN on the little-endian host vs. the reference in big-endian-image mode: all 23 plain load/store '
                        'flavours x 5 static offsets x 18 base addresses (aligned and odd) x values, all 14 atomic loads/stores and 49 RMW/cmpxchg flavours (mutex based path), '
                        'bulk operations and data segments followed by loads of every width (BFS over histories); after every store/RMW ALL memory bytes are compared, so '
                        'mixed-width sequences (store w1, load w2 at overlapping addresses) are covered; the same cases with the switch off; the forced-BE translator must '
                        'read f32/f64 immediates with exactly one byte reversal and leave integer immediates alone; the swap_* helpers reverse exactly their width; '
-                       'the mutex-based RMW path additionally under the controlled scheduler (2 threads, same cell, all interleavings, linearizability on the big-endian image)')
+                       'the mutex-based RMW path additionally under the controlled scheduler (2 threads, same cell, all interleavings, linearizability on the big-endian image); the WASI host (wasi.c) built for both configurations runs one scenario (args, environ, prestat, open/write/seek/read through iovecs, fdstat, filestat, readlink, clocks, fd_readdir complete and with every buffer length that cuts the second record) and every field it stored into guest memory is read back through the typed loads of the same build: values must agree')
     chk.sample({'case': 'i64.store32 offset=1 at base 0xfffd, then i32.load16_s at 0xffff', 'mode': 'forced big endian'})
     chk.assumptions += ['real big-endian hardware is not available: the endianness detection #if chain and the non-builtin swap macros are not exercised']
     return chk.finish()
